@@ -79,6 +79,18 @@ def items(ctx):
             out.append({"kind": "dba", "s1": sers[0], "s2": sers[0], "series": sers, "t": t, "avg": pts(rng, t, nd),
                         "mask": mask, "w": rng.choice([0, 0, 1, 2]), "psi": [0, 0, 0, 0], "pen": rng.choice([0, 1.0]),
                         "ms": 0, "md": 0, "prune": False, "inner": 0})
+    # DBA with averages LONGER than the series and narrow windows (the scratch matrix is (t+1) x width)
+    for rep in range(150 if q else 1500):
+        nd = rng.choice([1, 1, 2])
+        n = rng.choice([2, 3, 4])
+        L = rng.randint(2, 6)
+        equal = rng.random() < 0.7
+        sers = [pts(rng, L if equal else rng.randint(1, 6), nd) for _ in range(n)]
+        t = rng.randint(1, 9)
+        mask = [rng.randint(1, 255)]
+        out.append({"kind": "dba", "s1": sers[0], "s2": sers[0], "series": sers, "t": t, "avg": pts(rng, t, nd),
+                    "mask": mask, "w": rng.choice([1, 1, 2, 3]), "psi": [0, 0, 0, 0], "pen": rng.choice([0, 1.0]),
+                    "ms": 0, "md": 0, "prune": False, "inner": 0})
     for k, it in enumerate(out):
         it["id"] = "c08-%d" % k
     return out
